@@ -743,3 +743,137 @@ Proof.
 Qed.
 Lemma init_est_valid b : buf_valid b -> est_valid (init_est b).
 Proof. intro H. split; [exact H|apply regs0_valid]. Qed.
+
+(* ====================================================================================== *)
+(* C08_refines_partial: x X D against a declarative one-line reference                      *)
+(* ====================================================================================== *)
+Lemma nextoff_fwd b r l : getl b r = Some l -> forall n o, 0 <= o < slen l ->
+  iter_break n (vi_nextoff b 1) (r, o) = Some (r, Z.min (o + Z.of_nat n) (slen l - 1)).
+Proof.
+  intro E. induction n as [|n IH]; intros o Ho.
+  - cbn [iter_break]. f_equal. f_equal. lia.
+  - cbn [iter_break]. unfold vi_nextoff, lbuf_lnnext. rewrite E.
+    destruct (Z.ltb_spec (o + 1) 0); [lia|]. destruct (Z.geb_spec (o + 1) (slen l)); cbn [orb].
+    + f_equal. f_equal. lia.
+    + rewrite IH by lia. f_equal. f_equal. lia.
+Qed.
+Lemma nextoff_bwd b r l : getl b r = Some l -> forall n o, 0 <= o < slen l ->
+  iter_break n (vi_nextoff b (-1)) (r, o) = Some (r, Z.max (o - Z.of_nat n) 0).
+Proof.
+  intro E. induction n as [|n IH]; intros o Ho.
+  - cbn [iter_break]. f_equal. f_equal. lia.
+  - cbn [iter_break]. unfold vi_nextoff, lbuf_lnnext. rewrite E.
+    destruct (Z.ltb_spec (o + -1) 0); cbn [orb].
+    + f_equal. f_equal. lia.
+    + destruct (Z.geb_spec (o + -1) (slen l)); [lia|]. rewrite IH by lia. f_equal. f_equal. lia.
+Qed.
+
+(* the first half of delete_chars_spec without the validity hypothesis, with the cursor offset *)
+Lemma delete_chars_core rows e y a1 a2 t k r2 o2 cl cc pc e1 l1 l2 : plain_reg y ->
+  let b := s_buf e in let s := s_vs e in
+  let o1 := ren_noeol (getl b (v_row s)) (v_off s) in
+  buf_wf b -> 0 <= v_off s ->
+  op_target b rows s a1 a2 t o1 = TOk k r2 o2 cl cc pc ->
+  let g := vc_region b k (v_row s) o1 r2 o2 in
+  g_ln g = false -> getl b (g_r1 g) = Some l1 -> getl b (g_r2 g) = Some l2 -> g_o2 g <= slen l2 - 1 ->
+  exec_op rows e y a1 Od a2 t [] = Some e1 ->
+  let nl := sub_l l1 0 (g_o1 g) ++ sub_l l2 (g_o2 g) (-1) in
+  reg_get (s_regs e1) y = Some (flat (lbuf_region b (g_r1 g) (g_o1 g) (g_r2 g) (g_o2 g)), false) /\
+  s_buf e1 = firstn (Z.to_nat (g_r1 g)) b ++ [nl] ++ skipn (Z.to_nat (g_r2 g + 1)) b /\
+  v_row (s_vs e1) = g_r1 g /\ v_off (s_vs e1) = ren_noeol (Some nl) (g_o1 g).
+Proof.
+  intros [Hy Hq] b s o1 HW Ho E g Hln El1 El2 Hb2 X nl.
+  rewrite (exec_op_delete rows e y a1 a2 t k r2 o2 cl cc pc E) in X. fold b s o1 g in X.
+  assert (H1 : 0 <= o1) by (apply ren_noeol_nonneg, Ho).
+  assert (H2 : 0 <= o2).
+  { destruct (vc_region_rows b k (v_row s) o1 r2 o2) as (_ & _ & C). fold g in C. rewrite Hln in C. destruct (Z.ltb_spec o2 0); [discriminate|lia]. }
+  destruct (region_char_facts b k (v_row s) o1 r2 o2 l1 HW H1 H2 El1) as (F1 & F2 & F3). fold g in F1, F2, F3.
+  clear E. clearbody g. clearbody o1. clearbody s. clearbody b.
+  pose proof (getl_wf _ _ _ HW El1) as W1. pose proof (getl_wf _ _ _ HW El2) as W2.
+  destruct (region_cut b (g_r1 g) (g_o1 g) (g_r2 g) (g_o2 g) l1 l2 El1 El2 F3 ltac:(lia) ltac:(lia)) as (pre & x & post & Eb & Lp & Lx & Ecat).
+  assert (Wnl : line_wf nl) by (apply cut_wf; try assumption; lia).
+  assert (EB : fst (vi_delete b (s_regs e) y g) = pre ++ [nl] ++ post).
+  { unfold vi_delete. rewrite Hln, El1, El2. cbn [fst optl]. fold nl. replace (g_r2 g + 1) with (g_r1 g + Z.of_nat (length x)) by lia.
+    rewrite lbuf_edit_some by (try lia; rewrite Eb, !blen_app; unfold blen; lia).
+    rewrite (split_text_line nl Wnl). rewrite Eb, <- Lp. apply set_row_decomp. }
+  assert (ET : region_text b g = lbuf_region b (g_r1 g) (g_o1 g) (g_r2 g) (g_o2 g)) by (unfold region_text; rewrite Hln; reflexivity).
+  rewrite EB, ET, Hln in X. inversion X; subst e1. clear X.
+  rewrite finish_regs, finish_buf. split; [apply put_get_plain; assumption|]. split.
+  { rewrite Eb, <- Lp, Nat2Z.id, firstn_app_exact. f_equal. f_equal.
+    replace (g_r2 g + 1) with (Z.of_nat (length (pre ++ x))) by (rewrite app_length; lia).
+    rewrite Nat2Z.id, app_assoc, skipn_app_exact. reflexivity. }
+  set (st := vs_pos (vs_mot s cl cc pc) (g_r1 g) (g_o1 g)).
+  set (b' := pre ++ (@cons line nl nil) ++ post).
+  assert (Hrow : 0 <= v_row st < blen b').
+  { unfold st, b'. cbn [vs_pos v_row]. rewrite !blen_app. unfold blen. cbn [length]. lia. }
+  assert (G : getl b' (g_r1 g) = Some nl).
+  { unfold b'. rewrite getl_app_r by lia. rewrite <- Lp, Z.sub_diag. reflexivity. }
+  split.
+  - change (pre ++ nl :: post) with b'. rewrite finish_row by exact Hrow. reflexivity.
+  - change (pre ++ nl :: post) with b'. rewrite finish_off by exact Hrow. unfold st. cbn [vs_pos v_row v_off]. rewrite G. reflexivity.
+Qed.
+
+Lemma firstn_body (body : list chr) x n : (n <= length body)%nat -> firstn n (body ++ x) = firstn n body.
+Proof. intro H. rewrite firstn_app. replace (n - length body)%nat with 0%nat by lia. cbn [firstn]. apply app_nil_r. Qed.
+Lemma skipn_body (body : list chr) x n : (n <= length body)%nat -> skipn n (body ++ x) = skipn n body ++ x.
+Proof. intro H. rewrite skipn_app. replace (n - length body)%nat with 0%nat by lia. reflexivity. Qed.
+
+(* the motion targets of x X D from a valid cursor *)
+Lemma line_target rows b s cnt k l : buf_wf b -> cursor_ok b (v_row s) (v_off s) -> getl b (v_row s) = Some l -> 0 <= cnt ->
+  let n := Z.max 1 cnt in let o := v_off s in
+  let mk := match k with Lx => Kspace | LX => Kbs | LD => Kdollar end in
+  op_target b rows s cnt 0 (TMot mk) (ren_noeol (getl b (v_row s)) o) =
+  TOk mk (v_row s) (match k with Lx => Z.min (o + n) (slen l - 1) | LX => Z.max (o - n) 0 | LD => slen l - 1 end) (v_cl s) (v_cc s) (v_pcol s).
+Proof.
+  intros HW Hc El Hn n o mk. pose proof (getl_wf _ _ _ HW El) as Wl. pose proof (wf_slen_pos l Wl) as Hp.
+  assert (Hok : off_ok l o) by (unfold cursor_ok in Hc; rewrite El in Hc; exact Hc).
+  rewrite El, (ren_noeol_id l o Wl Hok). destruct Hok as [H0 H1].
+  assert (Ecnt : (if cnt =? 0 then 1 else cnt) * (if 0 =? 0 then 1 else 0) = n) by (unfold n; destruct (Z.eqb_spec cnt 0); cbn; lia).
+  unfold op_target. rewrite Ecnt. unfold mk. destruct k; unfold vi_motion; cbn [vi_motionln].
+  - rewrite (nextoff_fwd b (v_row s) l El) by (fold o; lia). fold o. f_equal. f_equal. lia.
+  - rewrite (nextoff_bwd b (v_row s) l El) by (fold o; lia). fold o. f_equal. f_equal. lia.
+  - f_equal. apply lbuf_eol_some; assumption.
+Qed.
+
+Lemma refines_line_deletes rows e k y cnt e1 body : plain_reg y ->
+  let b := s_buf e in let s := s_vs e in
+  buf_wf b -> cursor_ok b (v_row s) (v_off s) -> getl b (v_row s) = Some (body ++ [nlc]) -> 0 <= cnt ->
+  exec1 rows (lcmd k y cnt) e = Some e1 ->
+  let '(a, z) := ref_span k (Z.max 1 cnt) (v_off s) (Z.of_nat (length body)) in
+  let '(nb, del) := ref_line_delete body a z in
+  s_buf e1 = set_row b (v_row s) [nb ++ [nlc]] 1 /\
+  reg_get (s_regs e1) y = Some (flat del, false) /\
+  v_row (s_vs e1) = v_row s /\ v_off (s_vs e1) = ren_noeol (Some (nb ++ [nlc])) a.
+Proof.
+  intros Hy b s HW Hc El Hn X.
+  set (l := body ++ [nlc]) in *. pose proof (getl_wf _ _ _ HW El) as Wl.
+  assert (Hs : slen l = Z.of_nat (length body) + 1) by (unfold l, slen; rewrite app_length; cbn [length]; lia).
+  assert (Hok : off_ok l (v_off s)) by (unfold cursor_ok in Hc; rewrite El in Hc; exact Hc). destruct Hok as [H0 H1].
+  pose proof (line_target rows b s cnt k l HW Hc El Hn) as T. cbv zeta in T.
+  set (mk := match k with Lx => Kspace | LX => Kbs | LD => Kdollar end) in *.
+  set (o2 := match k with Lx => _ | LX => _ | LD => _ end) in T.
+  assert (Ho2 : 0 <= o2 <= slen l - 1) by (unfold o2; destruct k; lia).
+  assert (EX : exec1 rows (lcmd k y cnt) e = exec_op rows e y cnt Od 0 (TMot mk) []) by (destruct k; reflexivity).
+  rewrite EX in X. clear EX.
+  assert (Hincl : incl_key mk = false) by (destruct k; reflexivity).
+  assert (RN : ren_noeol (getl b (v_row s)) (v_off s) = v_off s) by (rewrite El; apply ren_noeol_id; [exact Wl|split; assumption]).
+  assert (Hoo : off_ok l (Z.min (ren_noeol (getl b (v_row s)) (v_off s)) o2)).
+  { rewrite RN. unfold off_ok. split; [lia|]. destruct H1 as [H1|[H1 H1']]; [left; lia|right; lia]. }
+  destruct (vc_region_same_row b mk (v_row s) (ren_noeol (getl b (v_row s)) (v_off s)) o2 l HW El ltac:(lia) Hoo) as (G1 & G2 & G3 & G4 & G5).
+  rewrite Hincl in G5. cbn [andb] in G5.
+  pose proof (delete_chars_core rows e y cnt 0 (TMot mk) mk (v_row s) o2 (v_cl s) (v_cc s) (v_pcol s) e1 l l Hy HW H0 T) as D.
+  cbv zeta in D. fold b s in D. rewrite G2, G3, G4, G5 in D. specialize (D G1 El El).
+  rewrite RN in D.
+  specialize (D ltac:(lia) X). destruct D as (D1 & D2 & D3 & D4).
+  set (a := Z.min (v_off s) o2) in *. set (z := Z.max (v_off s) o2) in *.
+  assert (Haz : ref_span k (Z.max 1 cnt) (v_off s) (Z.of_nat (length body)) = (a, z)).
+  { unfold ref_span, a, z, o2. destruct k; f_equal; lia. }
+  rewrite Haz. unfold ref_line_delete.
+  assert (Ha : 0 <= a <= z /\ z <= Z.of_nat (length body)) by (unfold a, z; lia).
+  assert (E1 : sub_l l 0 a = firstn (Z.to_nat a) body) by (rewrite sub_l_firstn by lia; unfold l; apply firstn_body; lia).
+  assert (E2 : sub_l l z (-1) = skipn (Z.to_nat z) body ++ [nlc]) by (rewrite sub_l_skipn by lia; unfold l; apply skipn_body; lia).
+  assert (E3 : lbuf_region b (v_row s) a (v_row s) z = firstn (Z.to_nat (z - a)) (skipn (Z.to_nat a) body)).
+  { unfold lbuf_region. rewrite El, Z.eqb_refl. rewrite sub_l_mid by lia. unfold l. rewrite skipn_body by lia.
+    apply firstn_body. rewrite skipn_length. lia. }
+  rewrite E1, E2, E3 in *. rewrite <- app_assoc. repeat split; assumption.
+Qed.
